@@ -642,33 +642,16 @@ func c13GenReq(r *vf.Rand, rules []c13Rule) c13Case {
 
 		q.Path = path
 
-		if len(rl.Methods) > 0 {
-			ok := false
-			for _, m := range rl.Methods {
-				if m == q.Method {
-					ok = true
-				}
-			}
-
-			if !ok {
-				if r.Chance(70) {
-					q.Method = vf.Pick(r, rl.Methods)
-				} else {
-					c.Hit = false
-				}
-			}
+		if len(rl.Methods) > 0 && !c13In(rl.Methods, q.Method) && r.Chance(70) {
+			q.Method = vf.Pick(r, rl.Methods) // otherwise the method constraint is violated on purpose
 		}
 
-		if r.Chance(4) { // one segment too many / too few: no rule
+		if r.Chance(4) { // one segment too few: no rule
 			q.Path = "/" + rl.ID
 			c.Hit = false
 		}
 	} else {
 		q.Path = "/none/" + vf.Pick(r, c13Segs)
-	}
-
-	if !c.Hit {
-		c.Caps = nil
 	}
 
 	// headers
@@ -733,6 +716,37 @@ func c13GenReq(r *vf.Rand, rules []c13Rule) c13Case {
 		}
 	}
 
+	// the client sends headers / cookies under names the pipeline of the rule sets, too (any casing for
+	// headers): the pipeline's value must replace the client's at all three entry points
+	if c.Rule != nil {
+		hn, cn := c.Rule.pipeNames()
+
+		if len(hn) > 0 && r.Chance(35) {
+			name := vf.Pick(r, assembly.SortedKeys(hn))
+			q.Headers = append(q.Headers, c13Hdr{c13Casing(r, name), "client-1"})
+
+			if r.Chance(30) {
+				q.Headers = append(q.Headers, c13Hdr{c13Casing(r, name), "client-2"})
+			}
+		}
+
+		if len(cn) > 0 && r.Chance(30) {
+			pair := vf.Pick(r, assembly.SortedKeys(cn)) + "=client1"
+			found := false
+
+			for i, h := range q.Headers {
+				if strings.EqualFold(h.N, "cookie") {
+					q.Headers[i].V = h.V + "; " + pair
+					found = true
+				}
+			}
+
+			if !found {
+				q.Headers = append(q.Headers, c13Hdr{c13Casing(r, "Cookie"), pair})
+			}
+		}
+	}
+
 	// aim the request at the conditions of the rule, so that pipelines run to their end often
 	if c.Rule != nil {
 		for _, cd := range c.Rule.conds() {
@@ -794,22 +808,26 @@ func c13GenReq(r *vf.Rand, rules []c13Rule) c13Case {
 
 	c.Req = q
 
-	// the method may have been changed by the body: re-evaluate the method constraint
-	if c.Rule != nil && c.Hit && len(c.Rule.Methods) > 0 {
-		ok := false
-		for _, m := range c.Rule.Methods {
-			if m == q.Method {
-				ok = true
-			}
-		}
+	// the rule matches when the path was built from its pattern and the final method satisfies its constraint
+	if c.Rule != nil && c.Hit && len(c.Rule.Methods) > 0 && !c13In(c.Rule.Methods, q.Method) {
+		c.Hit = false
+	}
 
-		if !ok {
-			c.Hit = false
-			c.Caps = nil
-		}
+	if !c.Hit {
+		c.Caps = nil
 	}
 
 	return c
+}
+
+func c13In(xs []string, x string) bool {
+	for _, y := range xs {
+		if y == x {
+			return true
+		}
+	}
+
+	return false
 }
 
 func (q c13Req) raw() string {
@@ -1176,17 +1194,52 @@ func c13ObserveProxy(app *assembly.HandlerApp, up *assembly.Upstream, c c13Case)
 	hn, cn := rl.pipeNames()
 	o.HO = &c13HO{Headers: [][2]string{}, Cookies: [][2]string{}}
 
+	// What the client sent itself under a name the pipeline can set, too (any casing).  A header that
+	// arrives at the upstream exactly as the client sent it was passed through, not handed over by the
+	// pipeline; everything else under such a name counts — so a pipeline value that is APPENDED to the
+	// client's instead of replacing it shows up as "client,pipeline".
+	sent := http.Header{}
+	clientCookies := ""
+
+	for _, h := range c.Req.Headers {
+		if strings.EqualFold(h.N, "cookie") {
+			clientCookies = h.V
+		} else {
+			sent.Add(h.N, strings.Trim(h.V, " \t"))
+		}
+	}
+
 	for k, vs := range seen[0].Header {
-		if hn[k] {
+		if hn[k] && !(len(sent[k]) > 0 && strings.Join(vs, "\x00") == strings.Join(sent[k], "\x00")) {
 			o.HO.Headers = append(o.HO.Headers, [2]string{k, wireJoin(vs)})
 		}
 	}
 
+	// http.Request.AddCookie appends "; name=value" to the client's Cookie line: what follows the client's
+	// line is what the pipeline handed over (a client cookie of the same name is passed through in front)
 	for _, line := range seen[0].Header["Cookie"] {
-		for _, part := range strings.Split(line, "; ") {
+		rest := line
+
+		if clientCookies != "" {
+			if !strings.HasPrefix(line, clientCookies) {
+				o.HO.Cookies = append(o.HO.Cookies, [2]string{"!client-cookies-changed", line})
+
+				continue
+			}
+
+			rest = strings.TrimPrefix(strings.TrimPrefix(line, clientCookies), "; ")
+		}
+
+		if rest == "" {
+			continue
+		}
+
+		for _, part := range strings.Split(rest, "; ") {
 			p := cutPair(part)
 			if cn[p[0]] {
 				o.HO.Cookies = append(o.HO.Cookies, p)
+			} else {
+				o.HO.Cookies = append(o.HO.Cookies, [2]string{"!unexpected:" + p[0], p[1]})
 			}
 		}
 	}
@@ -1215,6 +1268,12 @@ func c13ObserveEnvoy(app *assembly.EnvoyApp, c c13Case) c13EObs {
 
 	for _, h := range ok.GetHeaders() {
 		opts[h.GetHeader().GetKey()] = append(opts[h.GetHeader().GetKey()], h)
+
+		// heimdall leaves `append` unset and `append_action` at its zero value: Envoy's ext_authz filter then
+		// overwrites a request header of that name.  Anything else would change what reaches the upstream.
+		if h.GetAppend() != nil || h.GetAppendAction() != 0 || h.GetKeepEmptyValue() {
+			o.Err = "envoy header option with explicit append semantics: " + h.String()
+		}
 	}
 
 	get := func(k string) string {
@@ -1421,6 +1480,24 @@ func c13Tags(c c13Case, o c13Obs) ([]string, bool) {
 		add("scheme:https")
 	}
 
+	if c.Rule != nil {
+		hn, cn := c.Rule.pipeNames()
+
+		for _, h := range c.Req.Headers {
+			if hn[http.CanonicalHeaderKey(h.N)] {
+				add("collision:client-header-with-pipeline-name")
+			}
+
+			if strings.EqualFold(h.N, "cookie") {
+				for n := range cn {
+					if strings.Contains(h.V, n+"=client1") {
+						add("collision:client-cookie-with-pipeline-name")
+					}
+				}
+			}
+		}
+	}
+
 	for _, h := range c.Req.Headers {
 		if strings.EqualFold(h.N, "cookie") {
 			add("req:cookie")
@@ -1579,6 +1656,9 @@ func c13Corpus() ([]c13Rule, []c13Case) {
 		cs(9, cp("a", "abd", "b", "z"), rq("GET", "a.example.com", "/c9/abd/x/z", "", false, "", "x-role", "user")),
 		{Rule: nil, Hit: false, Req: rq("GET", "a.example.com", "/none/x", "", false, "")},
 		cs(10, nil, rq("GET", "a.example.com", "/c10/lit", "", false, "")),
+		// the client sends a header and a cookie under the names the pipeline sets (seeded change C13-1)
+		cs(0, cp("name", "abc"), rq("GET", "a.example.com", "/c0/abc", "", false, "", "x-user", "client-1", "X-USER", "client-2",
+			"Cookie", "sid=1; pc1=client1")),
 	}
 
 	return rules, cases
